@@ -112,6 +112,11 @@ func toBytes(f net.Addr, fwdType int) []byte {
 		return nil
 	}
 
+	if len(addrStr) > 65535 {
+		// the length is carried in two bytes
+		logrus.Error("address too long to encode")
+		return nil
+	}
 	addrLen := make([]byte, 2)
 	binary.BigEndian.PutUint16(addrLen, uint16(len(addrStr)))
 
